@@ -433,7 +433,7 @@ func (bp *boundsProver) helperContract(rule string, fn *ssa.Function) {
 	}
 	buf := fn.Params[0]
 	for i, r := range returns(fn) {
-		off := r.Results[1]
+		off := rvs(r)[1]
 		construct := fmt.Sprintf("%s: return#%d offset %s", fname(fn), i+1, describe(off))
 		if k, isC := constInt(off); isC && k == 0 {
 			c.ob(rule, construct, c.pos(r.Pos()), true, "constant 0")
@@ -648,7 +648,7 @@ func (c *Ctx) consumedContracts(rule string) {
 			}
 			// every nil-error return returns this counter
 			for _, r := range returns(f) {
-				if isNilConst(r.Results[2]) && r.Results[1] != ssa.Value(bu) {
+				if isNilConst(rvs(r)[2]) && rvs(r)[1] != ssa.Value(bu) {
 					ok = false
 					detail = "a nil-error return yields a byte count other than the loop counter"
 				}
@@ -700,12 +700,12 @@ func (c *Ctx) consumedContracts(rule string) {
 		nDesc := describe(dl) + "#0"
 		buDesc := describe(dl) + "#1"
 		for i, r := range returns(f) {
-			if !isNilConst(r.Results[1]) {
+			if !isNilConst(rvs(r)[1]) {
 				continue
 			}
 			construct := fmt.Sprintf("(*packets.Properties).Decode: nil-error return#%d yields a count within the input", i+1)
-			res := describe(r.Results[0])
-			if k, isC := constInt(r.Results[0]); isC && k == 0 {
+			res := describe(rvs(r)[0])
+			if k, isC := constInt(rvs(r)[0]); isC && k == 0 {
 				c.ob(rule, construct, c.pos(r.Pos()), true, "returns 0")
 				continue
 			}
